@@ -149,8 +149,8 @@ func PeerExit(c io.Closer) {
 	_ = c.Close()
 }
 
-// SSHServer accepts any user / password and hands every session to Sessions.
-type SSHServer struct {
+// C16SSHServer accepts any user / password and hands every session to Sessions.
+type C16SSHServer struct {
 	*Listener
 	cfg      *ssh.ServerConfig
 	Sessions chan *SSHSession
@@ -169,8 +169,8 @@ func (d *detReader) Read(b []byte) (int, error) {
 	return len(b), nil
 }
 
-// NewSSHServer starts a server on loopback with a fresh ed25519 host key derived from seed.
-func NewSSHServer(seed uint64) (*SSHServer, error) {
+// NewC16SSHServer starts a server on loopback with a fresh ed25519 host key derived from seed.
+func NewC16SSHServer(seed uint64) (*C16SSHServer, error) {
 	_, priv, err := ed25519.GenerateKey(&detReader{s: seed})
 	if err != nil {
 		return nil, err
@@ -187,12 +187,12 @@ func NewSSHServer(seed uint64) (*SSHServer, error) {
 	if err != nil {
 		return nil, err
 	}
-	s := &SSHServer{Listener: l, cfg: cfg, Sessions: make(chan *SSHSession, 64)}
+	s := &C16SSHServer{Listener: l, cfg: cfg, Sessions: make(chan *SSHSession, 64)}
 	go s.serve()
 	return s, nil
 }
 
-func (s *SSHServer) serve() {
+func (s *C16SSHServer) serve() {
 	for {
 		c, err := s.L.Accept()
 		if err != nil {
@@ -202,7 +202,7 @@ func (s *SSHServer) serve() {
 	}
 }
 
-func (s *SSHServer) handle(c net.Conn) {
+func (s *C16SSHServer) handle(c net.Conn) {
 	sc, chans, reqs, err := ssh.NewServerConn(c, s.cfg)
 	if err != nil {
 		_ = c.Close()
@@ -255,7 +255,7 @@ func (s *SSHServer) handle(c net.Conn) {
 }
 
 // NextSession waits up to d for the next session.
-func (s *SSHServer) NextSession(d time.Duration) (*SSHSession, error) {
+func (s *C16SSHServer) NextSession(d time.Duration) (*SSHSession, error) {
 	select {
 	case x := <-s.Sessions:
 		return x, nil
